@@ -80,7 +80,7 @@ InsertSorted(q, tok) ==
   LET k == Cardinality({i \in 1..Len(q) : q[i].prio <= tok.prio})
   IN SubSeq(q, 1, k) \o <<tok>> \o SubSeq(q, k+1, Len(q))
 
-HasPrio(s) == s.c.kind \in {"prio", "filter", "fleet"}
+HasPrio(s) == s.c.kind \in {"prio", "filter", "fleet", "slotted"}
 Timed(s)   == s.c.kind \in {"buffer", "fleet", "slotted"}
 Slotted(s) == s.c.kind = "slotted"
 Travel(s)  == s.c.cap * s.c.trig
